@@ -164,6 +164,7 @@ type hijackWatch struct {
 	sync.Mutex
 	source  watch.Interface
 	result  chan watch.Event
+	done    chan struct{}
 	stopped bool
 }
 
@@ -171,6 +172,7 @@ func newHijackWatch(source watch.Interface) watch.Interface {
 	w := &hijackWatch{
 		source: source,
 		result: make(chan watch.Event),
+		done:   make(chan struct{}),
 	}
 	go w.receive()
 	return w
@@ -181,6 +183,8 @@ func (w *hijackWatch) Stop() {
 	defer w.Unlock()
 	if !w.stopped {
 		w.stopped = true
+		// release receive() if it is blocked sending to a consumer that has gone away
+		close(w.done)
 		w.source.Stop()
 	}
 }
@@ -204,7 +208,11 @@ func (w *hijackWatch) receive() {
 				}
 				event.Object = sts
 			}
-			w.result <- event
+			select {
+			case w.result <- event:
+			case <-w.done:
+				return
+			}
 		}
 	}
 }
